@@ -96,9 +96,16 @@ func vpH_C07_T_stale_events() {
 		vpEndPath("not-settled") // disturbances before the stale event are vpH_C07_T_leftover's subject
 	}
 	tok := s.e.Token()
-	kind := vpChoose("stale", 3)
+	kind := vpChoose("stale", 4)
 	w := s.st.watchers[len(s.st.watchers)-1]
 	switch kind {
+	case 3:
+		// late notification about an OLDER version of its own record (its creation), after later refreshes
+		for _, m := range s.st.log {
+			if m.ok && m.by == "a" && m.op == "create" {
+				w.push(&vpEntry{k: "g", v: m.newVal, rev: m.newSeq})
+			}
+		}
 	case 0:
 		w.push(&vpEntry{k: "g", v: vpRecMk("other", "tok-other", 0), rev: oldRev}) // late event of the previous owner
 	case 1:
@@ -113,4 +120,5 @@ func vpH_C07_T_stale_events() {
 	vpAssert("C07.no-demote-callback", s.cb.demotes == 0)
 	vpAssert("C07.token-stable", s.e.Token() == tok)
 	vpAssert("C07.owner-stable", s.st.live() && vpRecID(s.st.val) == "a" && vpRecTok(s.st.val) == tok)
+	vpAssert("C18.leader-snapshot:revision", s.e.Status().Revision == s.st.lastSeq)
 }
